@@ -37,6 +37,7 @@ type HarnessSpec struct {
 	Note     string                       `json:"note"`
 	MaxPaths int                          `json:"max_paths"`
 	ConcCap  int                          `json:"conc_cap"`
+	NoStubs  []string                     `json:"no_stubs"` // intrinsic names (substring match) to disable: the real code runs instead
 }
 
 func loadSpec(path string) (*Spec, error) {
